@@ -3,6 +3,7 @@ import Vore.Driver.Ops
 import Vore.Driver.ParseRes
 import Vore.Spec.Search
 import Vore.Lemmas.Replace
+import Vore.Lemmas.GenR
 /-!
 # Driver — line protocol: one case per input line, one result line per case.
 `<id> TAB <op> TAB <field> …`
@@ -38,6 +39,53 @@ def specOk (text : Bytes) (cmds : List (Cmd × GenState)) (groups : List (List M
     | .replace amt e _ => chk amt e
     | _ => acc) (0, true)
 
+/-- the two-pass generator (resolve, then emit) applied to every command; `none` where resolution
+rejects.  Returns the bytecode commands with the code fields replaced. -/
+def twoPass (cmds : List Cmd) (bc : List BCmd) : Option (List BCmd) :=
+  let rec go (cs : List (Cmd × BCmd)) (G : Spec.GEnv) (nid : Nat) : Option (List BCmd) :=
+    match cs with
+    | [] => some []
+    | (c, b) :: rest =>
+      let body? : Option (Expr × Spec.GEnv) := match c with
+        | .find _ e => some (e, G)
+        | .replace _ e _ => some (e, G)
+        | .setPattern x e p => some (e, (x, e, p) :: G)
+        | _ => none
+      match body? with
+      | none => (go rest G nid).map (b :: ·)
+      | some (e, G') =>
+        match Spec.resolveBody G e with
+        | none => none
+        | some r =>
+          let g := genBody r nid
+          let b' := match b with
+            | .find a _ => BCmd.find a g.1
+            | .replace a _ rs => BCmd.replace a g.1 rs
+            | .setPattern x _ p => BCmd.setPattern x g.1 p
+            | other => other
+          (go rest G' g.2).map (b' :: ·)
+  go (cmds.zip bc) [] 0
+
+/-- stage-2 specification per command: (commands checked, all equal to the implementation) -/
+def spec2Ok (text : Bytes) (cmds : List Cmd) (groups : List (List Match)) : Nat × Bool :=
+  let rec go (cs : List Cmd) (gs : List (List Match)) (G : Spec.GEnv) (acc : Nat × Bool) : Nat × Bool :=
+    match cs, gs with
+    | c :: rest, g :: grest =>
+      let chk (amt : Amount) (e : Expr) : Nat × Bool :=
+        match Spec.resolveBody G e with
+        | none => acc
+        | some r =>
+          match Spec.findAllR text procFuel 64 r with
+          | some A => (acc.1 + 1, acc.2 && sameMatches ((Spec.window amt A).map eraseRepl) (g.map eraseRepl))
+          | none => acc
+      match c with
+      | .find amt e => go rest grest G (chk amt e)
+      | .replace amt e _ => go rest grest G (chk amt e)
+      | .setPattern x e p => go rest grest ((x, e, p) :: G) acc
+      | _ => go rest grest G acc
+    | _, _ => acc
+  go cmds groups [] (0, true)
+
 /-- property predicates evaluated on the implementation's result (4th field) -/
 def predsOn (cmds : List Cmd) (lens : List Nat) (text : Bytes) (impl : String) : String :=
   match parseMatches impl with
@@ -49,7 +97,8 @@ def predsOn (cmds : List Cmd) (lens : List Nat) (text : Bytes) (impl : String) :
     let sp := specOk text gs groups
     "PRED faithful=" ++ boolStr (groups.all (Spec.faithful text)) ++
       " replacement=" ++ boolStr (replacementsOk procFuel "text".toUTF8.toList gs groups) ++
-      (if sp.1 == 0 then "" else " spec=" ++ boolStr sp.2)
+      (if sp.1 == 0 then "" else " spec=" ++ boolStr sp.2) ++
+      (let s2 := spec2Ok text cmds groups; if s2.1 == 0 then "" else " spec2=" ++ boolStr s2.2)
 
 def handleRun (fields : List String) : String :=
   match fields with
@@ -62,7 +111,10 @@ def handleRun (fields : List String) : String :=
         let pred := match rest with
           | impl :: _ => "\t" ++ predsOn cmds (groupLens t bc) t impl
           | [] => ""
-        "CODE " ++ bytecodeStr bc ++ "\tRES " ++ resStr (runProgram procFuel vmFuel "text".toUTF8.toList t bc) ++ pred
+        let code2 := match twoPass cmds bc with
+          | some bc2 => "\tCODE2 " ++ bytecodeStr bc2
+          | none => ""
+        "CODE " ++ bytecodeStr bc ++ "\tRES " ++ resStr (runProgram procFuel vmFuel "text".toUTF8.toList t bc) ++ pred ++ code2
     | _, _ => "BADCASE"
   | _ => "BADCASE"
 
